@@ -79,10 +79,10 @@ def h_optim_helper(ctx, n):
 # ---------------------------------------------------------------------------
 # C06.2 planner lemma
 
-def h_mixed_planner(ctx, n):
+def h_mixed_planner(ctx, n, smax=None):
     from checkpoint_schedules.mixed import mixed_step_memoization, optimal_steps_mixed
     from checkpoint_schedules.schedule import StepType
-    s = ctx.int("s", min(1, n - 1), None)
+    s = ctx.int("s", min(1, n - 1), smax)
     try:
         kind, i, c = mixed_step_memoization(n, s)
         total = optimal_steps_mixed(n, s)
@@ -123,7 +123,8 @@ def _mk_action(ctx, tag, kind, boxed):
     def num(name):
         x = ctx.int(tag + name, None if not boxed else 0, None)
         if boxed:
-            ctx.assume(sym_or(x <= 6, x == sys.maxsize))
+            ctx.assume(sym_or(x <= 6, sym_and(x >= sys.maxsize - 1, x <= sys.maxsize + 1),
+                              x == 2 * sys.maxsize))
         return x
     sts = [S.StorageType.RAM, S.StorageType.DISK, S.StorageType.WORK, S.StorageType.NONE]
     if kind == "Forward":
@@ -208,13 +209,14 @@ def h_action_value(ctx, kind):
                 steps = list(a)
                 exp = list(range(n0, n1)) if kind == "Forward" else list(range(n1 - 1, n0 - 1, -1))
                 ctx.require(steps == exp, "C18.iter", {"kind": kind, "got": steps, "expected": exp})
-            try:
-                ln = len(a)
-            except PathAbort:
-                raise
-            except Exception as e:                          # noqa: BLE001
-                ctx.fail("C18.len", {"exc": repr(e), "fields": repr(f)})
-            ctx.require(ln == n1 - n0, "C18.len", {"kind": kind, "len": ln})
+            if n1 - n0 <= sys.maxsize:      # CPython: len() cannot exceed sys.maxsize
+                try:
+                    ln = len(a)
+                except PathAbort:
+                    raise
+                except Exception as e:                      # noqa: BLE001
+                    ctx.fail("C18.len", {"exc": repr(e), "fields": repr(f)})
+                ctx.require(ln == n1 - n0, "C18.len", {"kind": kind, "len": ln})
     ctx.cover("__nontrivial__")
 
 
